@@ -576,6 +576,11 @@ class Gen:
             cols = nc
             return True
 
+        if r.random() < 0.25:       # multi-letter column names
+            wide = r.sample([("a", "key"), ("b", "val"), ("s", "tag"), ("a", "v"), ("b", "amount")], r.randint(2, 4))
+            st = ("select", [(("col", c), n) for c, n in wide])
+            steps.append(("op", st))
+            cols = c01.cols_after(st, cols)
         add_ops(r.choice([0, 0, 1, 1, 2]))
         k = r.random()
         if k < 0.14:
@@ -650,6 +655,15 @@ def corpus():
     P.append([("cube", [KA], ("short", [], "sum", ["b"], True))])
     P.append([("cube", [KB, (("bin", "Mul", C("b"), ("lit", 1)), "g", "alias")], ("agg", "groupBy", [], nsb))])
     P.append([("cube", [(("bin", "Add", C("b"), C("a")), "g", "alias"), KA], ("count", []))])
+    # three keys (2**3 grouping sets), cube after every SELECT-class step (cube itself carries no decorator)
+    P.append([("cube", [KA, KB, KS], ("agg", "groupBy", [], nsb))])
+    P.append([("cube", [KEXP, KS, KB], ("count", []))])
+    P.append([W_POS, ("cube", [KS, KA, KB], ("short", [], "max", ["b"], True))])
+    for pre in ([SEL], [OP("distinct")], [OP("withColumn", "b", ("bin", "Mul", C("b"), ("lit", 2)))], [OP("drop", ["s"])],
+                [OP("select", [(C("a"), "a")]), OP("distinct")], [ORD, OP("limit", 3)], [OP("rename", "b", "e")],
+                [("agg", "groupBy", [KA, KB], [(A("count_star"), "c")])]):
+        P.append(pre + [("cube", [KA], ("agg", "groupBy", [], [(A("count_star"), "n"), (A("sum", C("a")), "sa")]))])
+        P.append(pre + [("cube", [KA], ("count", []))])
     P.append([W_NONE, ("cube", [KA], ("count", []))])
     P.append([W_POS, ("cube", [KA, KS], ("agg", "groupBy", [], nsb)), OP("where", ("isnull", C("a")))])
     # the aggregate as a step inside C01 chains
@@ -670,6 +684,27 @@ def corpus():
         P.append([W_POS, ("agg", "groupBy", [KA], nsb), post])
     P.append([("agg", "groupBy", [KA], nsb), post_cols[4], OP("limit", 2)])
     P.append([("agg", "groupBy", [KA], nsb), post_cols[5], OP("limit", 3), post_cols[0]])
+    # an aliased key referred to afterwards
+    KCA = (C("a"), "k", "alias")
+    for keys in ([KEXP], [KCA], [KBOOL, KS]):
+        kn = keys[0][1]
+        P.append([("agg", "groupBy", keys, nsb), OP("where", ("isnull", C(kn)))])
+        P.append([("agg", "groupBy", keys, nsb), OP("orderBy", [(C(kn), False, None), (C("n"), False, None), (C("sb"), False, None)] + ([(C("s"), False, None)] if len(keys) > 1 else []))])
+        P.append([("agg", "groupBy", keys, nsb), OP("select", [(C(kn), kn), (C("sb"), "sb")])])
+        P.append([("agg", "groupBy", keys, nsb), ("agg", "groupBy", [(C(kn), kn, "name")], [(A("sum", C("n")), "nn")])])
+        P.append([("count", keys), OP("rename", kn, "z")])
+    # column names longer than one character (dict form, shortcuts, keys)
+    WIDE = OP("select", [(C("a"), "key"), (C("b"), "val"), (C("a"), "v"), (C("s"), "tag"), (C("b"), "k")])
+    for f in ("sum", "avg", "min", "max", "count"):
+        P.append([WIDE, ("dict", "groupBy", [(C("key"), "key", "name")], [("val", f)])])
+    P.append([WIDE, ("dict", "groupBy", [(C("tag"), "tag", "col")], [("key", "max")])])
+    P.append([WIDE, ("dict", "dfagg", [], [("val", "sum")])])
+    P.append([WIDE, ("dict", "groupBy", [], [("tag", "count")])])
+    P.append([OP("rename", "b", "amount"), ("dict", "groupBy", [KA], [("amount", "sum")])])
+    P.append([WIDE, ("short", [(C("key"), "key", "name")], "sum", ["val", "v"], True)])
+    P.append([WIDE, ("cube", [(C("key"), "key", "name"), (C("tag"), "tag", "name")], ("dict", "groupBy", [], [("val", "sum")]))])
+    P.append([WIDE, ("agg", "groupBy", [(C("key"), "key", "col"), (C("tag"), "tag", "name")],
+                     [(A("sum", C("val")), "total"), (A("count_distinct", C("v")), "dv")]), OP("where", ("bin", "Gt", C("total"), ("lit", 1)))])
     # re-aggregation and join
     P.append([("agg", "groupBy", [KA, KS], nsb), ("agg", "groupBy", [KA], [(A("sum", C("n")), "nn"), (A("max", C("sb")), "m")])])
     P.append([("agg", "groupBy", [KA], nsb), ("agg", "dfagg", [], [(A("sum", C("sb")), "tot"), (A("count_star"), "groups")])])
@@ -871,6 +906,10 @@ def run(ctx: core.Ctx):
         proved = ctx.prove(gen_files + [core.COQ + "/props/C06.v"], dep_theories=deps)
     else:
         proved = False
+        # the obligations still exist; none of them is discharged against the current source
+        for th in deps:
+            ctx.obligations += core.count_obligations(os.path.join(core.THEORIES, th))
+        ctx.obligations += core.count_obligations(core.COQ + "/props/C06.v")
         for p in gen_files:
             ctx.coqc(p)
     if not os.path.exists(ctx.build + "/gen/C06Facts.vo"):
